@@ -494,6 +494,8 @@ type C06StoreCase struct {
 	LP     lk.LP `json:"lp"`
 	FailAt int   `json:"fail_at"` // writer fails once this many bytes were accepted (-1: encoder-side failure)
 	Short  bool  `json:"short"`   // the failing write accepts part of its input
+	// Recovers: the writer fails once (at FailAt) and accepts everything afterwards
+	Recovers bool `json:"recovers,omitempty"`
 	Poison int   `json:"poison"`  // which encoder-side failure
 }
 
@@ -501,13 +503,17 @@ type failWriter struct {
 	limit int
 	short bool
 	n     int
+	// recovers: the failure happens once; later writes are accepted again
+	recovers bool
+	failed   bool
 }
 
 func (w *failWriter) Write(p []byte) (int, error) {
-	if w.n+len(p) <= w.limit {
+	if w.n+len(p) <= w.limit || (w.recovers && w.failed) {
 		w.n += len(p)
 		return len(p), nil
 	}
+	w.failed = true
 	k := 0
 	if w.short {
 		k = w.limit - w.n
@@ -561,7 +567,7 @@ func c06StoreCheck(c C06StoreCase, rec *evid.Rec) error {
 	var w io.Writer
 	if c.FailAt >= 0 && size > 0 {
 		at := c.FailAt % size
-		w = &failWriter{limit: at, short: c.Short}
+		w = &failWriter{limit: at, short: c.Short, recovers: c.Recovers}
 		class = "writer-fails"
 	} else {
 		w = &bytes.Buffer{}
@@ -611,7 +617,7 @@ func c06StoreCheck(c C06StoreCase, rec *evid.Rec) error {
 	if committed != 0 {
 		return fmt.Errorf("Store (%s, %s) failed with %v but the block was committed", class, c.LP, err)
 	}
-	rec.Case(val.HashBytes([]byte(fmt.Sprintf("%x|%s|%d|%v|%d", full.Bytes(), c.LP, c.FailAt, c.Short, c.Poison))), true, class)
+	rec.Case(val.HashBytes([]byte(fmt.Sprintf("%x|%s|%d|%v|%v|%d", full.Bytes(), c.LP, c.FailAt, c.Short, c.Recovers, c.Poison))), true, class)
 	if rec.WantSample() {
 		rec.Sample(map[string]any{"value": v.String(), "lp": c.LP.String(), "class": class, "fail_after_bytes": c.FailAt, "block_size": size})
 	}
@@ -620,13 +626,14 @@ func c06StoreCheck(c C06StoreCase, rec *evid.Rec) error {
 
 var c06Store = evid.Part[C06StoreCase]{
 	Prop: "C06", Name: "storefaults", Quick: 1500, Thorough: 400000,
-	Rule: "Store with a writer that fails after a drawn number of accepted bytes (0..size-1, with or without a short write), or with a node the codec cannot encode (undefined CID, bytes/links for codecs without them, non-bytes for raw) placed after a valid element; a spy committer must never be called and Store must return an error; a failing commit and a failing write opener must make Store fail as well; all cases non-trivial; distinct by (block, prototype, failure point)",
+	Rule: "Store with a writer that fails after a drawn number of accepted bytes (0..size-1, with or without a short write, failing for good or once only), or with a node the codec cannot encode (undefined CID, bytes/links for codecs without them, non-bytes for raw) placed after a valid element; a spy committer must never be called and Store must return an error; a failing commit and a failing write opener must make Store fail as well; all cases non-trivial; distinct by (block, prototype, failure point)",
 	Gen: func(t *rapid.T) C06StoreCase {
 		lp := drawC06LP(t)
 		c := C06StoreCase{LP: lp, V: drawSmallCodecValue(t, lp.Codec, "v"), FailAt: -1, Poison: rapid.IntRange(0, 2).Draw(t, "poison")}
 		if rapid.IntRange(0, 2).Draw(t, "writerfault") > 0 {
 			c.FailAt = rapid.IntRange(0, 200).Draw(t, "failat")
 			c.Short = rapid.Bool().Draw(t, "short")
+			c.Recovers = rapid.Bool().Draw(t, "recovers")
 		}
 		return c
 	},
